@@ -1,6 +1,6 @@
-From Coq Require Import List NArith Bool.
+From Coq Require Import List NArith Bool Lia.
 From Coq.Strings Require Import Byte.
-From PM Require Import Base Text Model.
+From PM Require Import Base Text Model Lemmas TextLemmas.
 Import ListNotations.
 (* ---------------- C16: the serde form is the string form ----------------
    The serde data model as far as this crate looks at it.  A deserializer may hand a string to the visitor in three ways
@@ -10,21 +10,43 @@ Import ListNotations.
 Section C16S. Variable cfg : config.
 Context {T E : Type} (sh : shape T E).
 Inductive str_flavour := Transient | Borrowed | Owned.
-Inductive value := VStr (f : str_flavour) (s : bytes) | VOther.
+(* the other values of the serde data model this crate can be handed: a char (serde's default visit_char forwards to visit_str with the
+   character's UTF-8 encoding), a byte array in any of its three flavours (default visit_bytes / visit_borrowed_bytes / visit_byte_buf:
+   invalid type), everything else (default visit_*: invalid type) *)
+Inductive value := VStr (f : str_flavour) (s : bytes) | VChar (c : N) | VBytes (b : bytes) | VOther.
 Definition visit_str (s : bytes) : result E (T * parts) := parse cfg sh s.                 (* the one method the visitor implements *)
 Definition visit (err_not_string : E) (v : value) : result E (T * parts) :=
   match v with
   | VStr Transient s => visit_str s
   | VStr Borrowed s => visit_str s          (* default visit_borrowed_str -> visit_str *)
   | VStr Owned s => visit_str s             (* default visit_string -> visit_str *)
+  | VChar c => visit_str (enc1 c)            (* default visit_char -> visit_str *)
+  | VBytes _ => Err err_not_string
   | VOther => Err err_not_string
   end.
 Definition ser (x : T * parts) : value := VStr Owned (format cfg sh (fst x) (snd x)).      (* Serialize = collect_str(Display) *)
 Definition de := visit.
 Theorem C16_string_iff e f s : de e (VStr f s) = parse cfg sh s. Proof. destruct f; reflexivity. Qed.
 Theorem C16_other e : de e VOther = Err e. Proof. reflexivity. Qed.
+Theorem C16_bytes e b : de e (VBytes b) = Err e. Proof. reflexivity. Qed.
+Theorem C16_char e c : de e (VChar c) = parse cfg sh (enc1 c). Proof. reflexivity. Qed.
 (* the JSON round trip is C01 *)
 Theorem C16_roundtrip e x : parse cfg sh (format cfg sh (fst x) (snd x)) = Ok x -> de e (ser x) = Ok x.
 Proof. intros H. exact H. Qed.
 End C16S.
+Local Open Scope N_scope.
+(* a single character never carries the scheme prefix: a char value is refused like any other string without `pkg:` *)
+Lemma strip_pkg_enc1 c : strip_prefix s_pkg (enc1 c) = None.
+Proof.
+  unfold enc1, s_pkg.
+  destruct (c <? 128); [cbn [strip_prefix]; destruct (beq _ _); reflexivity|].
+  destruct (c <? 2048); [cbn [strip_prefix]; repeat (destruct (beq _ _); try reflexivity)|].
+  destruct (c <? 65536); [cbn [strip_prefix]; repeat (destruct (beq _ _); try reflexivity)|].
+  cbn [strip_prefix]. destruct (beq "p"%byte _); [|reflexivity].
+  destruct (beq "k"%byte (nb (128 + (c / 4096) mod 64))) eqn:E; [|reflexivity].
+  exfalso. apply beq_true in E.
+  assert (H : bn (nb (128 + (c / 4096) mod 64)) = 128 + (c / 4096) mod 64).
+  { apply bn_nb. pose proof (N.mod_upper_bound (c / 4096) 64). lia. }
+  rewrite <- E in H. change (bn "k"%byte) with 107 in H. pose proof (N.mod_upper_bound (c / 4096) 64). lia.
+Qed.
 Print Assumptions C16_roundtrip.
